@@ -677,17 +677,23 @@ def _discharge(it, inst, unit, fn, case, assertions, vars_, timeout_ms, vals):
     """-> ('unsat'|'refuted'|'undecided', info)"""
     info = {'queries': 0, 'backends': {}}
     facts = []
-    nice = []
-    for name, shape in inst.inputs:
-        nice += shape.nice(name, vars_)
+    nice_by_input = [shape.nice(name, vars_) for name, shape in inst.inputs]
+    nice_by_input = [n for n in nice_by_input if n]
+    nice = [c for n in nice_by_input for c in n]
+    use_nice = bool(nice)
     last_detail = ''
     last_inputs, last_model = {}, ''
     for rnd in range(8):
         r = None
-        if nice:
-            r = solve.solve(assertions + facts + nice, timeout_ms=min(timeout_ms, 5000), other_backends=False)
-            info['queries'] += 1
-            if r.status != 'sat':
+        if use_nice:
+            # readable counterexamples: every input "nice"; failing that, all inputs but one (the path may pin one input to an odd value)
+            attempts = [nice] + ([[c for j, n in enumerate(nice_by_input) if j != i for c in n] for i in range(len(nice_by_input))]
+                                 if 1 < len(nice_by_input) <= 8 else [])
+            for cand in attempts:
+                r = solve.solve(assertions + facts + cand, timeout_ms=min(timeout_ms, 5000), other_backends=False)
+                info['queries'] += 1
+                if r.status == 'sat':
+                    break
                 r = None
         if r is None:
             r = solve.solve(assertions + facts, timeout_ms=timeout_ms)
@@ -734,14 +740,27 @@ def _discharge(it, inst, unit, fn, case, assertions, vars_, timeout_ms, vals):
         last_inputs = {n: _short(a) for (n, _), a in zip(inst.inputs, args)}
         last_model = str(r.model)[:1500]
         if not new:
-            # exclude this exact input point and look for another one
+            # look for another input: first one that differs from this one in EVERY variable (special values such as 0 often
+            # hide a difference), else merely a different point
             pt = [v.t == r.model.eval(v.t, model_completion=True) for v in vars_.values()]
             if not pt:
                 break
-            facts.append(z3.Not(z3.And(*pt)))
-            nice = nice
+            apart = [z3.Not(e) for e in pt]
+            probe = solve.solve(assertions + facts + apart, timeout_ms=min(timeout_ms, 5000), other_backends=False, want_model=False)
+            info['queries'] += 1
+            if probe.status == 'sat':
+                facts += apart
+            else:
+                facts.append(z3.Not(z3.And(*pt)))
             continue
         facts += new
+        # ... and prefer a next input that differs from this one in every variable (0, 1 and the like often hide a difference)
+        apart = [z3.Not(v.t == r.model.eval(v.t, model_completion=True)) for v in vars_.values()]
+        if apart:
+            probe = solve.solve(assertions + facts + apart, timeout_ms=min(timeout_ms, 5000), other_backends=False, want_model=False)
+            info['queries'] += 1
+            if probe.status == 'sat':
+                facts += apart
     # constant-guided native search: the string / integer constants of the verification condition are the
     # values the real code compares against; try them as inputs on the REAL function (a failing one is a
     # genuine counterexample whatever the solver thought of the uninterpreted builtins)
